@@ -42,18 +42,32 @@ def _ok_blocks(f):
 
 
 def _hop(ctx, R, f, key, callee_suffixes, checks, what):
-    """the returned value of f is the result of a call to one of callee_suffixes whose arguments satisfy checks[i](term)"""
-    t = Inliner(ctx).ret_term(f)
-    cs = _calls_in(t, callee_suffixes) if t is not None else []
-    ok = False
-    for c in cs:
-        if len(c[2]) >= len(checks) and all(ch is None or ch(c[2][i]) for i, ch in enumerate(checks)):
-            ok = True
-    # the result of that call is what is returned (through ok-ness preserving adapters only): no Ok aggregate of its own
+    """f's success is the success of a call to one of callee_suffixes whose arguments satisfy checks[i](term): the call's
+    result is what f returns (tail call, possibly through ok-ness preserving adapters), or every Ok(..) f can return is
+    dominated by the call's success edge. Private helpers are already spliced in, so the call may sit in a former helper."""
+    T = ctx.T(f)
+    cfg = ctx.cfg(f)
+    LF = Q.LocalFlow(f)
+    RL = Q.ret_locals(f)
     own_ok = _ok_blocks(f)
-    ctx.ob(R, key, ok and not own_ok, what if ok and not own_ok else
-           ("%s returns Ok on a path of its own (%d site(s)) instead of the library verdict" % (f.qname.split("::")[-2] + "::" + f.name, len(own_ok)) if ok else
-            "%s = %s" % (f.qname.split("::")[-2] + "::" + f.name, show(t)[:200] if t is not None else None)), f.loc())
+    cands = [c for c in T.calls() if c["q"].endswith(tuple(callee_suffixes))]
+    ok = False
+    shape = None
+    for c in cands:
+        a = T.args_of(c)
+        if len(a) < len(checks) or not all(ch is None or ch(a[i]) for i, ch in enumerate(checks)):
+            continue
+        d = c["t"]["dest"]["l"]
+        tail = not c["t"]["dest"].get("pr") and (d in RL or any(d in LF.closure(r) for r in RL))
+        ct = T.call_term(c["t"])
+        e = Q.success_edges(ctx, f, lambda b, ct=ct: b == ct)
+        guarded = bool(own_ok) and bool(e) and all(cfg.must_pass(ob, e) for ob in own_ok)
+        if (tail and not own_ok) or guarded:
+            ok = True
+            shape = "tail call" if tail and not own_ok else "Ok only after its success"
+    name = f.qname.split("::")[-2] + "::" + f.name
+    ctx.ob(R, key, ok, "%s (%s)" % (what, shape) if ok else
+           ("%s does not decide by the verdict of %s over the expected operands (calls found: %s)" % (name, [x.rsplit("::", 2)[-2] + "::" + x.rsplit("::", 1)[-1] for x in callee_suffixes][:2], [[show(x)[:40] for x in T.args_of(c)] for c in cands][:2])), f.loc())
     return ok
 
 
